@@ -57,14 +57,16 @@ pub struct Style {
     pub decl: bool,
     /// <x></x> instead of <x/>
     pub empt: bool,
+    /// a comment in the middle of token-valued text: the character content of the element is the same
+    pub cmtmid: bool,
 }
 
-pub const FLAGS: [&str; 7] = ["pfx", "ws", "pad", "cmt", "attr", "decl", "empt"];
+pub const FLAGS: [&str; 8] = ["pfx", "ws", "pad", "cmt", "attr", "decl", "empt", "cmtmid"];
 
 impl Style {
     pub fn from_flags(flags: &[String]) -> Style {
         let has = |f: &str| flags.iter().any(|x| x == f);
-        Style { pfx: has("pfx"), ws: has("ws"), pad: has("pad"), cmt: has("cmt"), attr: has("attr"), decl: has("decl"), empt: has("empt") }
+        Style { pfx: has("pfx"), ws: has("ws"), pad: has("pad"), cmt: has("cmt"), attr: has("attr"), decl: has("decl"), empt: has("empt"), cmtmid: has("cmtmid") }
     }
 }
 
@@ -116,7 +118,10 @@ fn render_node(n: &Node, st: &Style, depth: usize, root: bool, parent_ns: &str, 
                 out.push_str(&format!(" {k}={q}{}{q}", esc(v).replace(q, if q == '"' { "&quot;" } else { "&apos;" })));
             }
             if e.kids.is_empty() {
-                if st.empt {
+                if st.empt && st.cmt {
+                    // start and end tag with nothing but a comment between them: still an element without content
+                    out.push_str(&format!("><!-- none & nothing <here> --></{qname}>"));
+                } else if st.empt {
                     out.push_str(&format!("></{qname}>"));
                 } else {
                     out.push_str("/>");
@@ -131,6 +136,15 @@ fn render_node(n: &Node, st: &Style, depth: usize, root: bool, parent_ns: &str, 
                     out.push_str("\n   ");
                 }
                 for k in &e.kids {
+                    if e.token && st.cmtmid {
+                        if let Node::Text(t) = k {
+                            let mid = t.char_indices().nth(t.chars().count() / 2).map(|(i, _)| i).unwrap_or(0);
+                            out.push_str(&esc(&t[..mid]));
+                            out.push_str("<!-- mid -->");
+                            out.push_str(&esc(&t[mid..]));
+                            continue;
+                        }
+                    }
                     render_node(k, st, depth + 1, false, &my_ns, out);
                 }
                 if e.token && st.pad {
@@ -140,7 +154,7 @@ fn render_node(n: &Node, st: &Style, depth: usize, root: bool, parent_ns: &str, 
                 for k in &e.kids {
                     indent(out, depth + 1);
                     if st.cmt {
-                        out.push_str("<!-- c -->");
+                        out.push_str("<!-- c & d: if a < b && b > c -->");
                         indent(out, depth + 1);
                     }
                     render_node(k, st, depth + 1, false, &my_ns, out);
@@ -173,11 +187,12 @@ pub fn render(root: &Node, st: &Style) -> String {
     }
     if st.cmt {
         // comments are allowed before and after the root element as well
-        s.push_str("<!-- before the root -->");
+        // ("&" and "<" are ordinary characters inside a comment)
+        s.push_str("<!-- before the root: user r&d, class <super-user>, &motd; -->");
     }
     render_node(root, st, 0, true, "", &mut s);
     if st.cmt {
-        s.push_str("<!-- after the root -->");
+        s.push_str("<!-- after the root & all -->");
     }
     if st.ws {
         s.push('\n');
